@@ -77,6 +77,10 @@ type openSpec struct {
 	MPv4  bool   `json:"mp_v4"`
 	MPv6  bool   `json:"mp_v6"`
 	Roles []int  `json:"roles"` // RFC 9234 capability values, 0…2 of them
+	// Split: every capability travels in its own Capabilities optional parameter (RFC 5492 §4 allows one or several
+	// capabilities per parameter and several parameters); Rot rotates the capability order by that many places
+	Split bool `json:"split,omitempty"`
+	Rot   int  `json:"rot,omitempty"`
 }
 
 type ccase struct {
@@ -140,6 +144,11 @@ func (o openSpec) build(l localCfg) *wire.Open {
 	for _, r := range o.Roles {
 		w.Caps = append(w.Caps, wire.CapRole(uint8(r)))
 	}
+	if n := len(w.Caps); n > 1 && o.Rot%n != 0 {
+		k := o.Rot % n
+		w.Caps = append(append([]wire.Capability{}, w.Caps[k:]...), w.Caps[:k]...)
+	}
+	w.CapsPerParam = o.Split
 	return w
 }
 
@@ -299,6 +308,21 @@ func runCaseOnce(idx int, raw json.RawMessage) (res batch.Result, stalled bool) 
 		return
 	}
 	res.Count("opens", 1)
+	if my.CapsPerParam && len(my.Caps) > 1 {
+		res.Count("opens_with_one_capability_per_parameter", 1)
+		for i, c := range my.Caps[1:] {
+			switch c.Code {
+			case wire.CapCodeAS4:
+				res.Count("split_opens_with_4_octet_as_behind_the_first_parameter", 1)
+			case wire.CapCodeRole:
+				res.Count("split_opens_with_role_behind_the_first_parameter", 1)
+			case wire.CapCodeAddPath, wire.CapCodeMP:
+				if i == 0 || my.Caps[i].Code != c.Code { // (counted once per capability kind run)
+					res.Count("split_opens_with_addpath_or_mp_behind_the_first_parameter", 1)
+				}
+			}
+		}
+	}
 	established := false
 	var info server.VerifFSMInfo
 	if i1, _ := s.Info(); i1.State == "openConfirm" && !s.Conn.IsClosed() {
@@ -346,6 +370,9 @@ func runCaseOnce(idx int, raw json.RawMessage) (res batch.Result, stalled bool) 
 		sent = "none"
 	}
 	desc := fmt.Sprintf("local=%s OPEN{as=%d cap65=%s id=%#x hold=%d caps=%s}", l.Name, my.AS, c.O.Cap65, my.ID, my.HoldTime, capsText(my))
+	if my.CapsPerParam {
+		desc += " (one Capabilities optional parameter per capability)"
+	}
 
 	if established {
 		res.Count("established", 1)
@@ -562,6 +589,7 @@ func genCases(r *vf.Run) []any {
 	}
 	for li, l := range locals {
 		rng := r.RandN("c22", li)
+		first := len(out)
 		// stratum 1: one-dimensional sweeps around a valid OPEN (each value of each dimension at least once)
 		base := validSpec(rng, l)
 		for _, x := range asModes {
@@ -620,6 +648,15 @@ func genCases(r *vf.Run) []any {
 				add(li, randSpec(rng))
 			}
 		}
+		// stratum 3: the same OPENs with every capability in its own Capabilities optional parameter and the capability
+		// order rotated: all of the AS / identifier / hold / role sweeps, a quarter of the rest
+		srng := r.RandN("c22split", li)
+		for i, end := first, len(out); i < end; i++ {
+			if o := out[i].(ccase).O; i-first < 28 || srng.IntN(4) == 0 {
+				o.Split, o.Rot = true, srng.IntN(5)
+				add(li, o)
+			}
+		}
 	}
 	return out
 }
@@ -633,7 +670,7 @@ func main() {
 		return
 	}
 	vf.Main("C22", "exploration", func(r *vf.Run) {
-		r.Rule("one OPEN per case against a fresh server with one of 12 local peer configurations (iBGP/eBGP, 2- and 4-octet local/peer AS, IPv4/IPv6, IPv4 multiprotocol, add-path receive/send per family, hold 0/3/30/90, RFC 9234 roles incl. strict). OPEN domain: AS field {configured|AS_TRANS, other, AS_TRANS} × capability 65 {absent, configured, other} × identifier {0, ours, other} × hold {0,1,2,3,4,5,90,65535} × add-path {none,receive,send,both} per family × multiprotocol {none,v4,v6,both} × roles {none, each of 5, two different}; per configuration: one-dimensional sweeps around a valid OPEN, the full add-path × multiprotocol product on valid OPENs, PRNG points (thorough: also the complete AS × cap-65 × identifier × hold × roles product). distinct_nontrivial = distinct (configuration, predicate verdict, failed conditions, established) and distinct negotiated parameter sets per configuration")
+		r.Rule("one OPEN per case against a fresh server with one of 12 local peer configurations (iBGP/eBGP, 2- and 4-octet local/peer AS, IPv4/IPv6, IPv4 multiprotocol, add-path receive/send per family, hold 0/3/30/90, RFC 9234 roles incl. strict). OPEN domain: AS field {configured|AS_TRANS, other, AS_TRANS} × capability 65 {absent, configured, other} × identifier {0, ours, other} × hold {0,1,2,3,4,5,90,65535} × add-path {none,receive,send,both} per family × multiprotocol {none,v4,v6,both} × roles {none, each of 5, two different}; per configuration: one-dimensional sweeps around a valid OPEN, the full add-path × multiprotocol product on valid OPENs, PRNG points (thorough: also the complete AS × cap-65 × identifier × hold × roles product); the sweeps and a quarter of the other points are repeated with every capability in its own Capabilities optional parameter (RFC 5492 §4) and the capability order rotated by 0-4 places. distinct_nontrivial = distinct (configuration, predicate verdict, failed conditions, established) and distinct negotiated parameter sets per configuration")
 		r.Assume("the rest of the exchange is valid: version 4, well-formed capabilities, KEEPALIVE sent after bio-rd's OPEN/KEEPALIVE",
 			"where the 2-octet AS field (≠ AS_TRANS) and capability 65 disagree and exactly one equals the configured AS, either outcome is accepted (the statement does not say which one is the peer's AS)",
 			"reference negotiation is computed from the two OPEN messages on the wire with internal/wire, not from bio-rd's configuration")
@@ -652,6 +689,9 @@ func main() {
 			r.Require("established", 100)
 			r.Require("rejections_checked", 100)
 			r.Require("next_update_seen_ipv4", 50)
+			r.Require("split_opens_with_4_octet_as_behind_the_first_parameter", 100)
+			r.Require("split_opens_with_role_behind_the_first_parameter", 100)
+			r.Require("split_opens_with_addpath_or_mp_behind_the_first_parameter", 100)
 		}
 		keys := []string{}
 		for _, l := range locals {
